@@ -156,6 +156,32 @@ func other(tag int) interface{} {
 		return map[interface{}]interface{}{"name": "bob", "n": 1, "a": map[interface{}]interface{}{"b": 1}}
 	case 23:
 		return map[string]string{"name": "bob", "n": "1"}
+	case 24: // the same kinds, large: thresholds of "convert once" / "sort once" optimisations
+		m := map[interface{}]interface{}{8080: "http", "name": "bob", "n": 1}
+		for i := 0; i < 12; i++ {
+			m[fmt.Sprintf("k%d", i)] = i
+		}
+		return m
+	case 25:
+		m := map[string]string{"name": "bob"}
+		for i := 0; i < 70; i++ {
+			m[fmt.Sprintf("k%d", i)] = strconv.Itoa(i)
+		}
+		return m
+	case 26:
+		l := make([]interface{}, 0, 40)
+		for i := 0; i < 40; i++ {
+			l = append(l, (i*7)%40)
+		}
+		return l
+	case 27:
+		l := make([]string, 0, 40)
+		for i := 0; i < 40; i++ {
+			l = append(l, fmt.Sprintf("v%d", (i*7)%40))
+		}
+		return l
+	case 28:
+		return strings.Repeat("Long String Attribute ", 8) // 176 bytes
 	}
 	return struct{}{}
 }
